@@ -26,3 +26,37 @@ Proof.
     end;
     rewrite ?app_nil_r, <- ?app_assoc; try reflexivity.
 Qed.
+
+(* ------------------------------------------------------------------------------------------------ *)
+(* set operations: the clause of the whole operation is the reference clause too *)
+Definition setop_style_cls (d : dial) : bcls := match d with MSSQL => BMSSQL | ORACLE => BOracle | _ => BGeneric end.
+Definition nonempty_strs (l : list str) : bool := match l with [] => false | _ => true end.
+Definition setop_orderby_text (sob : list str) : str := match sob with [] => [] | _ => L " ORDER BY " ++ join [44] sob end.
+
+Lemma setop_pagination_is_reference : forall (c : ctx) (p : pz) base ops obs lim off alias,
+  render c p (TSetOp base ops obs lim off alias) =
+    let c1 := setop_ctx c in
+    let set_ctx := set_subquery (query_wrap_setops base && negb (dial_eqb (dialect c1) MYSQL)) c1 in
+    do (sb, p1) <- render_query (if query_has_tail base then set_subquery true set_ctx else set_ctx) p base;
+    do (so, p2) <- render_sops set_ctx (query_selects_len base) p1 ops;
+    do (sob, p3) <- render_obys c1 (query_select_aliases base) false p2 obs;
+    do (pag, p5) <- (if offset_slot_first (setop_style_cls (dialect c1)) then
+                       do (oo, p4) <- render_o c1 p3 off; do (ol, p5) <- render_o c1 p4 lim;
+                       Ok (ref_pagination (setop_style_cls (dialect c1)) ol oo (nonempty_strs sob), p5)
+                     else
+                       do (ol, p4) <- render_o c1 p3 lim; do (oo, p5) <- render_o c1 p4 off;
+                       Ok (ref_pagination (setop_style_cls (dialect c1)) ol oo (nonempty_strs sob), p5));
+    Ok (alias_if (with_alias c) c1 (paren_if (subquery c) (sb ++ so ++ setop_orderby_text sob ++ pag)) alias, p5).
+Proof.
+  intros. rewrite render_setop_eq. unfold setop_render, setop_body. cbv zeta.
+  set (c1 := setop_ctx c).
+  destruct (render_query _ p base) as [[sb p1]|]; [|reflexivity].
+  destruct (render_sops _ _ p1 ops) as [[so p2]|]; [|reflexivity].
+  destruct (render_obys c1 _ false p2 obs) as [[sob p3]|]; [|reflexivity].
+  unfold ref_pagination, style_of, offset_slot_first, setop_style_cls, setop_orderby_text, nonempty_strs.
+  destruct (dialect c1), lim as [|tl], off as [|to]; cbn [render_o];
+    repeat match goal with
+    | |- context [render ?cc ?pp ?t] => destruct (render cc pp t) as [[? ?]|?]; cbn [render_o]
+    end;
+    destruct sob; rewrite ?app_nil_r, <- ?app_assoc; try reflexivity.
+Qed.
